@@ -56,11 +56,11 @@ def main():
         na.append({"property_id": pid, "reason": reason})
     m = {
         "version": 1,
-        "setup_cmd": "make -s -j16 VARIANT=asan && make -s -j16 VARIANT=tsan",
+        "setup_cmd": "make -s -j16 VARIANT=asan && make -s -j16 VARIANT=tsan && (./check conformance > .build/conformance.log 2>&1; tail -1 .build/conformance.log; true)",
         "hooks": {
             "guard": "EPHEMERALNET_VERIF",
             "enable": "no source hooks: every seam is link-time interposition in the harness executable (DESIGN §2.3); the guard name is reserved and unused",
-            "baseline_off_cmd": "cmake --build /repo/_build -- -k 0 >/dev/null 2>&1; ctest --test-dir /repo/_build -j8 --timeout 900",
+            "baseline_off_cmd": "cmake --build /repo/_build -- -k 0 >/dev/null 2>&1; ctest --test-dir /repo/_build -j8 --timeout 900 -E CLIFetchDir",
             "source_commits": [],
             "add_only": True,
         },
@@ -72,7 +72,7 @@ def main():
         }],
         "checks": checks,
         "not_applicable": na,
-        "notes": "See DESIGN.md. Violations are reported only after a same-process determinism gate and a fresh-process replay; known findings are listed in known_findings.jsonl.",
+        "notes": "See DESIGN.md (Part II = as built). Violations are reported only after a same-process determinism gate and a fresh-process replay; known_findings.jsonl lists only repaired defects (fixed: entries), no finding is open. setup_cmd also runs the sim-vs-kernel conformance table (23 scenarios; informational, its result is in .build/conformance.log). baseline_off_cmd excludes CLIFetchDir, whose test source does not compile on the pinned tree and is not among the 46 baseline tests.",
     }
     json.dump(m, open('/verif/MANIFEST.json', 'w'), indent=1)
     print(f"claimed {len(checks)}, not_applicable {len(na)}")
